@@ -83,6 +83,14 @@ LedgerSet(name) ==
       [] name = "nestedthorough" ->
             LedgersOf(1, {3}, {1, 6}) \cup { l \in LedgersOf(2, {2, 4}, {1, 3, 4, 6, 7, 9}) : l[1].date < l[2].date /\ l[1].ps # l[2].ps }
               \cup { l \in LedgersOf(3, {2, 3, 4}, {1, 4, 6}) : l[1].date = 2 /\ l[2].date = 3 /\ l[3].date = 4 /\ l[1].ps # l[2].ps }
+      \* entry points: the hook of the shell works on the FROM clause alone -- few ledgers (one of them with income, expenses, a
+      \* conversion and a sale on different dates), every clause combination, every door
+      [] name = "doors" ->
+            LedgersOf(0, {2}, AllT) \cup LedgersOf(1, {3}, {1, 4}) \cup LedgersOf(2, {2, 4}, {1, 3, 4, 6})
+      [] name = "doorscover" ->
+            LedgersOf(0, {2}, AllT) \cup LedgersOf(1, {3}, {1, 4}) \cup LedgersOf(2, {2, 4}, {1, 4})
+InitDoors == InitWith(LedgerSet("doors"))
+InitDoorsCover == InitWith(LedgerSet("doorscover"))
 InitNone == InitWith(LedgerSet("none"))
 InitNested == InitWith(LedgerSet("nested"))
 InitNestedThorough == InitWith(LedgerSet("nestedthorough"))
@@ -99,6 +107,8 @@ FNone == {NoFilter}
 FSome == {NoFilter, F("nott", 1), F("ge", 3)}
 FAll == {NoFilter, F("orig", 0), F("synth", 0), F("nott", 1), F("onlyt", 2), F("ge", 3), F("lt", 4)}
 Open03 == {0, 3}
+OpenDoors == {0, 2, 3, 5}
+CloseDoors == {-1, 0, 1, 3, 4}
 Close04 == {-1, 0, 4}
 Close024 == {-1, 0, 2, 4}
 InnersNone == {NoInner}
@@ -109,6 +119,11 @@ InnersOf(opens, closes, filters) ==
 InnersQuick == InnersOf(Open03, Close04, {NoFilter, F("onlyt", 2), F("ge", 3)})
 InnersCover == InnersOf(Open03, {-1, 4}, {F("ge", 3)})
 InnersThorough == InnersOf(Open03, Close024, {NoFilter, F("orig", 0), F("onlyt", 2), F("ge", 3), F("lt", 4)})
+\* entry points: the DB-API, the shell (typed statement / command line), named queries whose directive is dated before, on,
+\* between and after the entry dates
+DoorsApi == {ApiDoor}
+DoorsAll == {ApiDoor, ShellDoor} \cup {RunDoor(q) : q \in 1..5}
+DoorsShell == {ShellDoor, RunDoor(3)}
 OrderStated == <<"open", "close", "clear", "filter">>
 OrderClearFirst == <<"open", "clear", "close", "filter">>
 OrderClearAlso == <<"open", "clear", "close", "clear", "filter">>      \* the recorded edit: CLEAR also applied before CLOSE
